@@ -793,7 +793,8 @@ class Columns(Widget, WidgetContainerMixin, WidgetContainerListContentsMixin):
             wtotal = sum(weight for weight, i in weighted)
             grow = shared + len(weighted) * self.min_width
             for weight, i in sorted(weighted):
-                width = max(int(grow * weight / wtotal + 0.5), self.min_width)
+                # columns that all have weight 0 share nothing: each keeps its minimum
+                width = max(int(grow * weight / wtotal + 0.5) if wtotal else 0, self.min_width)
 
                 widths[i] = width
                 grow -= width
